@@ -136,6 +136,8 @@ def _div(a, b):
 def to_S(x) -> "S":
     if isinstance(x, S):
         return x
+    if isinstance(x, float) and math.isinf(x) and x > 0:
+        return INF
     if isinstance(x, B):
         return S(z3.If(x.term, z3.RealVal(1), z3.RealVal(0)) if not isinstance(x.term, bool) else Fraction(int(x.term)))
     if isinstance(x, complex):
@@ -233,6 +235,8 @@ class S:
         o = _coerce(o)
         if o is NotImplemented:
             return o
+        if o is INF:
+            return S(Fraction(0))                 # the idiom `amps[amps == 0] = inf; y = x / amps`
         if o.is_real:
             return S(_div(self.re, o.re), _div(self.im, o.re))
         d = _add(_mul(o.re, o.re), _mul(o.im, o.im))
@@ -246,6 +250,8 @@ class S:
         return o.__truediv__(self)
 
     def __pow__(self, p):
+        if self is INF:
+            raise Unsupported("arithmetic on +inf other than x / inf")
         if isinstance(p, S):
             if not p.is_const or p.im != 0:
                 return ctx().power(self, p)
@@ -460,6 +466,25 @@ class S:
         return f"S({p(self.re)}" + ("" if self.is_real else f", {p(self.im)}") + ")"
 
 
+class _Inf(S):
+    """+inf placeholder: only `x / inf = 0` is supported (every other use is reported as unsupported)"""
+    __slots__ = ()
+
+    def __init__(self):
+        S.__init__(self, Fraction(10**30))
+
+    def _no(self, *a, **k):
+        raise Unsupported("arithmetic on +inf other than x / inf")
+
+    __add__ = __radd__ = __sub__ = __rsub__ = __mul__ = __rmul__ = __neg__ = __abs__ = sqrt = exp = _no
+
+    def __repr__(self):
+        return "S(+inf)"
+
+
+INF = _Inf()
+
+
 def _exact_sqrt(q: Fraction):
     n, d = q.numerator, q.denominator
     rn, rd = math.isqrt(n), math.isqrt(d)
@@ -533,6 +558,26 @@ class B:
 
     def __repr__(self):
         return f"B({self.term})"
+
+
+def resolve_B(b):
+    """True / False if the assumptions and the path decide the condition (two bounded solver queries), else None"""
+    if not isinstance(b, B):
+        return bool(b)
+    if isinstance(b.term, bool):
+        return b.term
+    if not _CTX:
+        return None
+    cx = _CTX[-1]
+    key = b.term.get_id()
+    if key not in cx.ite_cache:
+        verdict = None
+        if cx.check([z3.Not(b.term)], timeout_ms=1500) == "unsat":
+            verdict = True
+        elif cx.check([b.term], timeout_ms=1500) == "unsat":
+            verdict = False
+        cx.ite_cache[key] = verdict
+    return cx.ite_cache[key]
 
 
 def where(c, a, b):
